@@ -874,15 +874,17 @@ impl ConstantTimeEq for G2Affine {
 
 impl ConstantTimeEq for G2Projective {
     fn ct_eq(&self, other: &Self) -> Choice {
-        // Is (x, y, z) equal to (x', y, z') when converted to affine?
-        // => (x/z , y/z) equal to (x'/z' , y'/z')
-        // => (xz' == x'z) & (yz' == y'z)
+        // The underlying representation is Jacobian: (x, y, z) stands for the
+        // affine point (x/z^2, y/z^3). Hence (x, y, z) equals (x', y', z') iff
+        // (x z'^2 == x' z^2) & (y z'^3 == y' z^3).
+        let z1z1 = self.z().square();
+        let z2z2 = other.z().square();
 
-        let x1 = self.x() * other.z();
-        let y1 = self.y() * other.z();
+        let x1 = self.x() * z2z2;
+        let y1 = self.y() * z2z2 * other.z();
 
-        let x2 = other.x() * self.z();
-        let y2 = other.y() * self.z();
+        let x2 = other.x() * z1z1;
+        let y2 = other.y() * z1z1 * self.z();
 
         let self_is_zero = self.is_identity();
         let other_is_zero = other.is_identity();
@@ -1021,10 +1023,8 @@ impl CurveExt for G2Projective {
     }
 
     fn jacobian_coordinates(&self) -> (Self::Base, Self::Base, Self::Base) {
-        // Homogeneous to Jacobian
-        let x = self.x() * self.z();
-        let y = self.y() * self.z().square();
-        (x, y, self.z())
+        // The underlying representation is already Jacobian.
+        (self.x(), self.y(), self.z())
     }
 
     fn hash_to_curve<'a>(domain_prefix: &'a str) -> Box<dyn Fn(&[u8]) -> Self + 'a> {
@@ -1045,13 +1045,10 @@ impl CurveExt for G2Projective {
     }
 
     fn new_jacobian(x: Self::Base, y: Self::Base, z: Self::Base) -> CtOption<Self> {
-        // Jacobian to homogeneous
-        let z_inv = z.invert().unwrap_or(Fp2::ZERO);
-        let p_x = x * z_inv;
-        let p_y = y * z_inv.square();
+        // The underlying representation is already Jacobian.
         let p = G2Projective::from_raw_unchecked(
-            p_x,
-            Fp2::conditional_select(&p_y, &Fp2::ONE, z.is_zero()),
+            x,
+            Fp2::conditional_select(&y, &Fp2::ONE, z.is_zero()),
             z,
         );
         CtOption::new(p, p.is_on_curve())
